@@ -9,6 +9,6 @@ CONSTANTS
   MaxFields = 0
   MaxToks = 0
   MaxCnt = 0
-  NCases = 560
+  NCases = 1000
   Tier = "thorough"
 INVARIANT EmitReal
